@@ -28,7 +28,9 @@ RULE += (
     "for the same or another key, or saw the key computed earlier. In one program in three the hand-written "
     "asyncio_fn twins return an asyncio.Task; the deduplicate unit also makes the synchronous-call probe "
     "(RuntimeError expected). Unit refusals: 21 kinds of callable x called from a task / from its child under "
-    ".asyncio(): the synchronous call raises RuntimeError and nothing of the callable runs."
+    ".asyncio(): the synchronous call raises RuntimeError and nothing of the callable runs. The refusals also "
+    "run inside awaited children that are not converted generators (asyncio_fn coroutine, plain function "
+    "through async_call)."
 )
 ASSUMPTIONS = ["the quantifier is restricted to what resolve_awaitables claims to support (no batch items, ErrorFuture, lazy Future, result(), scoped values); with-blocks of AsyncContext subclasses are included, compared by outcome"]
 UNIT_TIMEOUT = {"quick": 240, "thorough": 2400}
